@@ -232,6 +232,8 @@ func runC04(c *Ctx, r *Report) {
 	c04r2(c, r, N)
 	c04r3(c, r)
 	c04r7(c, r)
+	c04r8(c, r)
+	c04r9(c, r)
 	c08r6(c, r) // unsorted order must not depend on an earlier sorted search
 }
 
@@ -786,4 +788,136 @@ func lessTacConst(less, cmp *ssa.Function) (bool, bool) {
 		}
 	})
 	return val, found
+}
+
+// c04r8: rank-key components are narrowed to 16 bits only by the saturating helper.
+func c04r8(c *Ctx, r *Report) {
+	l := c.L
+	r.rule("C04-R8", "B (conversion census)", "P1",
+		"in packages fzf and util every conversion of a non-constant integer to uint16 — the width of the rank-key slots (Result.points) and of the cached trim length that feeds the length criterion — is the one inside util.AsUint16, which saturates",
+		"a length or distance of 65536 or more wraps around: a very long line is ranked as if it were very short")
+	helper := l.Fn("util", "AsUint16")
+	if helper == nil {
+		r.unest("anchors", token.NoPos, nil, "anchor util.AsUint16", "cannot resolve")
+		return
+	}
+	n, inHelper := 0, 0
+	for _, fn := range l.AllFuncs() {
+		if fn.Pkg != l.pkg("fzf") && fn.Pkg != l.pkg("util") {
+			continue
+		}
+		eachInstr(fn, func(in ssa.Instruction) {
+			cv, ok := in.(*ssa.Convert)
+			if !ok {
+				return
+			}
+			to, ok := cv.Type().Underlying().(*types.Basic)
+			if !ok || to.Kind() != types.Uint16 {
+				return
+			}
+			from, ok := cv.X.Type().Underlying().(*types.Basic)
+			if !ok || from.Info()&types.IsInteger == 0 || from.Kind() == types.Uint16 || from.Kind() == types.Uint8 {
+				return
+			}
+			if _, isc := cv.X.(*ssa.Const); isc {
+				return
+			}
+			n++
+			if fn == helper {
+				inHelper++
+				r.ok("util.AsUint16:narrowing", cv.Pos(), fn, "the saturating helper narrows after clamping")
+				return
+			}
+			r.bad(relName(fn)+":raw narrowing to uint16", cv.Pos(), fn, "narrowing goes through util.AsUint16", "a non-constant integer is truncated to 16 bits without saturation")
+		})
+	}
+	r.floor("narrowing conversions inside util.AsUint16", inHelper, 1)
+	// the helper saturates: its result under `val > max` is the maximum
+	pc := pathConds(helper)
+	sat := false
+	for _, b := range helper.Blocks {
+		ret, ok := b.Instrs[len(b.Instrs)-1].(*ssa.Return)
+		if !ok {
+			continue
+		}
+		if k, isc := constIntVal(retResult(ret, 0)); isc && k == 65535 {
+			if ok, _ := pc.Implies(b, func(lits []Lit) bool {
+				return hasLit(lits, func(a ssa.Value, v bool) bool {
+					_, op, kk, ok := cmpInt(a)
+					return ok && ((op == token.GTR && v && kk >= 65535) || (op == token.LEQ && !v && kk >= 65535) || (op == token.GEQ && v && kk >= 65535))
+				})
+			}); ok {
+				sat = true
+			}
+		}
+	}
+	r.check(sat, "util.AsUint16:saturates", helper.Pos(), helper, "values above the range return 65535", "the helper no longer saturates")
+}
+
+// c04r9: mergers cached under one sort mode / revision are all dropped when that changes.
+func c04r9(c *Ctx, r *Report) {
+	l := c.L
+	r.rule("C04-R9", "P (must-pass-through)", "P1",
+		"in Matcher.Loop every assignment of Matcher.sort or Matcher.revision is followed, on every path to the next scan, by replacing Matcher.mergerCache with a fresh map (cached mergers were built under the old sort mode / for the old list)",
+		"after toggle-sort (or a reload) a merger cached for another query is served in the old order")
+	loop := l.Fn("fzf", "(*Matcher).Loop")
+	scan := l.Fn("fzf", "(*Matcher).scan")
+	fSort := l.Field("fzf", "Matcher", "sort")
+	fRev := l.Field("fzf", "Matcher", "revision")
+	fMC := l.Field("fzf", "Matcher", "mergerCache")
+	if loop == nil || scan == nil || fSort == nil || fRev == nil || fMC == nil {
+		r.unest("anchors", token.NoPos, nil, "anchors Matcher.Loop / scan / sort / revision / mergerCache", "cannot resolve")
+		return
+	}
+	n := 0
+	for _, fn := range withClosures(loop) {
+		eachInstr(fn, func(in ssa.Instruction) {
+			st, ok := in.(*ssa.Store)
+			if !ok {
+				return
+			}
+			f, _ := fieldOf(st.Addr)
+			if f != fSort && f != fRev {
+				return
+			}
+			n++
+			isReset := func(i2 ssa.Instruction) bool {
+				s2, ok := i2.(*ssa.Store)
+				if !ok {
+					return false
+				}
+				if f2, _ := fieldOf(s2.Addr); f2 != fMC {
+					return false
+				}
+				_, isMake := s2.Val.(*ssa.MakeMap)
+				return isMake
+			}
+			// a reset just before the store in the same block counts as well
+			before := false
+			for _, i2 := range in.Block().Instrs {
+				if i2 == in {
+					break
+				}
+				if isReset(i2) {
+					before = true
+				}
+			}
+			var bad ssa.Instruction
+			if !before {
+				bad = pathAvoiding(in, func(i2 ssa.Instruction) bool {
+					if call, ok := i2.(*ssa.Call); ok && callIs(call.Common(), scan) {
+						return true
+					}
+					return false
+				}, isReset, nil)
+			}
+			key := fmt.Sprintf("%s:%s changed => merger cache dropped", relName(fn), f.Name())
+			if bad != nil {
+				r.bad(key, st.Pos(), fn, "mergerCache = make(..) before the next scan", "Matcher."+f.Name()+" changes but a path reaches the next scan with the old merger cache")
+			} else {
+				r.ok(key, st.Pos(), fn, "Matcher."+f.Name()+" changes together with a fresh merger cache")
+			}
+		})
+	}
+	r.floor("assignments of Matcher.sort / Matcher.revision in Loop", n, 2)
 }
